@@ -321,13 +321,20 @@ func (scop *Scope) Show(env *Zlisp, ps *PrintState, label string) (s string, err
 		s += fmt.Sprintf("%s empty-scope: no symbols\n", rep4)
 		return
 	}
+	// Sort the names first and print the values in that order: ps
+	// remembers what was already printed, so the text of a value that
+	// is bound under several names depends on the order of printing,
+	// which must not be the iteration order of the Go map.
 	sortme := []*SymtabE{}
+	vals := make(map[string]Sexp)
 	for symbolNumber, val := range scop.Map {
 		symbolName := env.revsymtable[symbolNumber]
-		sortme = append(sortme, &SymtabE{Key: symbolName, Val: val.SexpString(ps)})
+		sortme = append(sortme, &SymtabE{Key: symbolName})
+		vals[symbolName] = val
 	}
 	sort.Sort(SymtabSorter(sortme))
 	for i := range sortme {
+		sortme[i].Val = vals[sortme[i].Key].SexpString(ps)
 		s += fmt.Sprintf("%s %s -> %s\n", rep4,
 			sortme[i].Key, sortme[i].Val)
 	}
